@@ -327,6 +327,15 @@ def _ensemble_append(c, adv, erel, prog=None):
         if st is not None and isinstance(st.value, ast.Call) and U(st.value.func) == "concatenate" and st.value.args:
             lay = L.layout_of(st.value.args[0], st)
         want = (("cond", f"{attr} is None", (), (("item", attr),)), ("each", ("iter", f"range({npar})"), f"{walker}.copy()"))
+
+        def copies(x):
+            # `array(W)` / `copy(W)` of an array are `W.copy()`
+            if isinstance(x, tuple):
+                return tuple(copies(y) for y in x)
+            if isinstance(x, str) and x in (f"array({walker})", f"copy({walker})", f"{walker}.copy(order='C')"):
+                return f"{walker}.copy()"
+            return x
+        lay = copies(lay)
         if lay != want:
             why.append(f"{attr} is rebuilt from {show(lay)}; expected the existing {attr} followed by one copy of {walker} per iteration")
     return struct_ob("ensemble-append", qual(c, adv), not why,
@@ -392,6 +401,29 @@ def _init_pairs(prog, stores):
             ok = (U(g.iter) == "self.walker_positions" and len(pcs) == 1
                   and U(pcs[0].args[0]) == U(g.target)
                   and U(lcs[0].elt) == U(pcs[0]) and not g.ifs)
+            # the same walk by index: posterior(self.walker_positions[k]) for k in range(<number of walkers>)
+            bm = pmatch(g.iter, "range(_n)")
+            if not ok and bm is not None and isinstance(g.target, ast.Name) and len(pcs) == 1 and not g.ifs \
+                    and U(lcs[0].elt) == U(pcs[0]) and U(pcs[0].args[0]) in (f"self.walker_positions[{g.target.id}]", f"self.walker_positions[{g.target.id}, :]"):
+                n_ = bm["_n"]
+                rows = n_ in ("len(self.walker_positions)", "self.walker_positions.shape[0]")
+                if not rows and n_ == "self.n_walkers":
+                    # n_walkers is the row count of the array the walker positions are a copy of
+                    nw = prog.self_assignments(ci, "n_walkers", methods={"__init__"})
+                    wp = prog.self_assignments(ci, "walker_positions", methods={"__init__"})
+                    src = set()
+                    for a_ in nw:
+                        stn = a_[2]
+                        v_ = stn.value if isinstance(stn, ast.Assign) else None
+                        if isinstance(v_, ast.Attribute) and v_.attr == "shape" and isinstance(stn.targets[0], ast.Tuple) \
+                                and U(stn.targets[0].elts[0]) == "self.n_walkers":
+                            src.add(U(v_.value))
+                        elif v_ is not None and pmatch(v_, "_a.shape[0]") is not None:
+                            src.add(pmatch(v_, "_a.shape[0]")["_a"])
+                    rows = len(nw) >= 1 and len(src) == 1 and len(wp) >= 1 and \
+                        all(any(isinstance(x, (ast.Name, ast.Attribute)) and U(x) in src | {"self.walker_positions"} for x in ast.walk(a_[3])) for a_ in wp) or \
+                        (len(src) == 1 and "self.walker_positions" in src)
+                ok = rows
         why = U(p[0][3])
     out.append(struct_ob("init-pair", qual(c, init), ok,
                          "walker_probs must be posterior(t) for each t in walker_positions, in order: " + why,
